@@ -934,6 +934,21 @@ func _panic(n *node) {
 	}
 }
 
+// copyDeferArg returns a copy of an argument of a deferred call. The arguments are
+// evaluated when the defer statement executes: the value kept until the call is run
+// must not alias the variable it was read from.
+func copyDeferArg(v reflect.Value) reflect.Value {
+	if !v.IsValid() {
+		return v
+	}
+	if vi, ok := v.Interface().(valueInterface); ok {
+		return reflect.ValueOf(valueInterface{vi.node, copyDeferArg(vi.value)})
+	}
+	c := reflect.New(v.Type()).Elem()
+	c.Set(v)
+	return c
+}
+
 func genBuiltinDeferWrapper(n *node, in, out []func(*frame) reflect.Value, fn func([]reflect.Value) []reflect.Value) {
 	next := getExec(n.tnext)
 
@@ -942,7 +957,7 @@ func genBuiltinDeferWrapper(n *node, in, out []func(*frame) reflect.Value, fn fu
 			val := make([]reflect.Value, len(in)+1)
 			inTypes := make([]reflect.Type, len(in))
 			for i, v := range in {
-				val[i+1] = v(f)
+				val[i+1] = copyDeferArg(v(f))
 				inTypes[i] = val[i+1].Type()
 			}
 			outTypes := make([]reflect.Type, len(out))
@@ -1295,7 +1310,7 @@ func call(n *node) {
 			val := make([]reflect.Value, len(values)+1)
 			val[0] = value(f)
 			for i, v := range values {
-				val[i+1] = v(f)
+				val[i+1] = copyDeferArg(v(f))
 			}
 			f.deferred = append([][]reflect.Value{val}, f.deferred...)
 			return tnext
@@ -1572,7 +1587,7 @@ func callBin(n *node) {
 			val := make([]reflect.Value, l+1)
 			val[0] = value(f)
 			for i, v := range values {
-				val[i+1] = getBinValue(getMapType, v, f)
+				val[i+1] = copyDeferArg(getBinValue(getMapType, v, f))
 			}
 			f.deferred = append([][]reflect.Value{val}, f.deferred...)
 			return tnext
